@@ -35,9 +35,9 @@ ASSUMPTIONS = [
 ]
 
 
-def _record(template):
+def _record(template, save_index_each=False):
     """-> (log, model, first_index): the op log of a full template run with begin/returned marks."""
-    env, s, h = T.build_file(template, marks=True)
+    env, s, h = T.build_file(template, marks=True, save_index_each=save_index_each)
     s.close()
     return env.fs.log, h.m
 
@@ -55,9 +55,12 @@ def _observe(s):
         it.close()
 
 
-def h_crash(p: int, j: int, template: str, tail: int) -> None:
+def h_crash(p: int, j: int, template: str, tail: int, ro: bool = False) -> None:
+    """ro: the writer saved its index after every commit and the crash image is reopened READ-ONLY with the index
+    file it holds (a reader next to the dead writer, a backup tool): the open succeeds, changes nothing and shows
+    the same prefix."""
     with untraced():
-        log, m = _record(template)
+        log, m = _record(template, save_index_each=ro)
         ops = _data_ops(log)
         # cut candidates: data-file operations belonging to the last `tail` transactions, plus "after everything"
         begins = [i for i, e in enumerate(log) if e[0] == 'mark' and e[1] == 'begin']
@@ -70,7 +73,7 @@ def h_crash(p: int, j: int, template: str, tail: int) -> None:
         # crash instant t ranges over [pi, next fsync at or after pi]; strongest obligation at the upper end
         nxt = len(log)
         for i in range(pi, len(log)):
-            if log[i][0] == 'fsync':
+            if log[i][0] == 'fsync' and log[i][1] == DATA:
                 nxt = i
                 break
         must = sum(1 for e in log[:nxt] if e[0] == 'mark' and e[1] == 'returned')
@@ -106,9 +109,9 @@ def h_crash(p: int, j: int, template: str, tail: int) -> None:
     note('cut_op', k)
     # ---- reopen: the code under test (traced; file length symbolic) ----
     try:
-        s = env.filestorage()
+        s = env.filestorage(read_only=True) if ro else env.filestorage()
     except Exception as ex:
-        fail('reopen after crash raised', type(ex).__name__, str(ex)[:200], pi, j)
+        fail('reopen after crash raised', type(ex).__name__, str(ex)[:200], pi, j, ro)
     with untraced():
         node = env.fs.files[DATA]
     if node.symsize is not None:
@@ -125,6 +128,10 @@ def h_crash(p: int, j: int, template: str, tail: int) -> None:
         pm = RevStore(m.txns[:n])
         check(tids == [t.tid for t in pm.txns], 'transactions after crash are not a prefix of the commit order')
         B.full_battery(s, pm)
+        if ro:
+            s.close()
+            reached()
+            return
         # the recovered file is a clean sequence of complete transactions
         s._file.flush()
         raw = bytes(env.fs.content(DATA))
@@ -205,8 +212,9 @@ HARNESSES = [
             oracle='RevStore prefix + independent file parser (fsparse)',
             code=['FileStorage.__init__', 'read_index', '_truncate', '_restore_index', '_save_index', 'load*', 'iterator',
                   '(recorded concretely) tpc_begin/store/tpc_vote/_finish/_finish_finish/_abort/undo/restore'],
-            quick=dict(timeout=170, shards=shards(template=['T1', 'T2', 'T4', 'T6', 'T10'], tail=[2])),
-            thorough=dict(timeout=1500, shards=shards(template=['T1', 'T2', 'T3', 'T4', 'T5', 'T6', 'T10'], tail=[2, 4]))),
+            quick=dict(timeout=170, shards=shards(template=['T1', 'T2', 'T4', 'T6', 'T10'], tail=[2], ro=[False]) + shards(template=['T1', 'T4'], tail=[2], ro=[True])),
+            thorough=dict(timeout=1500, shards=shards(template=['T1', 'T2', 'T3', 'T4', 'T5', 'T6', 'T10'], tail=[2, 4], ro=[False])
+                          + shards(template=['T1', 'T2', 'T4', 'T6'], tail=[2], ro=[True]))),
     Harness('failed_exit', _failed_exit,
             decides='a transaction that left two-phase commit through a failure (tpc_finish callback raising; I/O error at a solver-chosen operation of tpc_abort) is absent in full: none '
                     'of its records appear in the following transactions, also after reopen (same harness as C05 fault_late)',
